@@ -143,7 +143,10 @@ where
     /// Return the state with a new constraint
     pub fn with_constraint(mut self, constraint: Rc<dyn Constraint<U, E>>) -> State<U, E> {
         U::with_constraint(&mut self, &constraint);
-        self.cstore_to_mut().push_and_normalize(constraint);
+        // Constraints dropped as redundant by normalization leave the store like taken ones
+        for dropped in self.cstore_to_mut().push_and_normalize(constraint) {
+            U::take_constraint(&mut self, &dropped);
+        }
         self
     }
 
